@@ -7,7 +7,7 @@ use futures_util::FutureExt;
 use mediasan_common::{SeekSkipAdapter, Skip};
 
 use crate::c13::{mp4_corpus, webp_corpus};
-use crate::mp4gen::remux;
+use crate::mp4gen::{cut_in_skipped_tail, remux};
 use crate::mp4run::{canon, Cfg, ImplOut};
 use crate::rng::Rng;
 use crate::sparse::Sparse;
@@ -190,6 +190,14 @@ pub fn run<W: Write>(opts: &Opts, out: &mut W) {
             continue;
         }
         let mut r = rng.fork(1000 + i);
+        if i % 5 == 4 {
+            // the input ends a few bytes short, inside media that is only skipped: every way of feeding it must say so
+            let len = 1 + r.below(200);
+            let cut = if r.chance(1, 6) { 0 } else { 1 + r.below(len.min(100)) };
+            let s = cut_in_skipped_tail(&mut r, len, cut);
+            emit(out, &format!("mp4-cut-{i}"), "mp4", &s, &Cfg::default(), false, &mut r, true);
+            continue;
+        }
         let mut gm = remux(&mut r, false, true);
         if gm.s.len > 100_000 {
             continue;
